@@ -78,7 +78,7 @@ def check(run):
     drv = vlib.ocaml_build()
     codec = vlib.harness_build("harness", ["codec"])["codec"]
     cases, expect = [], []
-    vm_pool = []
+    vm_pool, vm_cand = [], {}
     sizes = {}
     # corpus first: the captured packets that are canonical must survive decode -> encode
     for name, b in cc.corpus(L):
@@ -90,10 +90,10 @@ def check(run):
     for s in L["structs"]:
         for k in range(per_type):
             v, b = layouts.gen_struct_value(rng, s, big=(k % 25 == 0))
-            if len(b) < 400:
-                vm_pool.append((s["name"], list(b), v))
             cases.append("dec\t%s\t%s" % (s["name"], layouts.hexs(b)))
             expect.append("Ok %s rem=- re=%s" % (layouts.show(v), layouts.hexs(b)))
+            if len(b) < 400:
+                vm_cand[len(cases) - 1] = (s["name"], list(b), v)
             sizes[len(b) // 64] = sizes.get(len(b) // 64, 0) + 1
         if s["control"]:
             for target in (253, 254, 255, 256, 257) + ((65534, 65535) if th else ()):
@@ -119,6 +119,8 @@ def check(run):
                           detail="decode(encode v) must be (v, no bytes left) and re-encode to the same bytes: " + what)
         else:
             run.nontrivial.add(hash(c))
+    # (only cases on which the extracted model itself met the expectation: a disagreement there is the machinery's)
+    vm_pool = [t for k, t in sorted(vm_cand.items()) if mo[k] == expect[k]]
     # the extracted model against Coq's own evaluator on a sample of these cases (trusted base: extraction + driver)
     from .. import vmcheck
     pick = rng.sample(range(len(vm_pool)), min(len(vm_pool), 1500 if th else 240))
